@@ -16,7 +16,7 @@ THEOREMS = [
     "C11_kind_tables_component", "C11_kind_tables_item", "C11_kind_tables_complete",
     "C11_kind_tables_scope", "C11_kind_tables_scope_complete",
     "C11_lookup_order", "C11_lookup_first_match", "C11_absent_plain", "C11_case_insensitive", "C11_no_abort",
-    "C11_child_kind_error", "C11_child_sound",
+    "C11_child_kind_error", "C11_child_sound", "C11_project_order",
 ]
 
 COMP_KINDS = ["procedure", "proc", "subroutine", "function", "interface", "absinterface", "block", "type", "file",
